@@ -406,7 +406,13 @@ func (p *Parser) parseAmount() *ast.Amount {
 					End:   toASTPosition(p.current.End),
 				},
 			}
+			if p.current.Type == TokenText {
+				// a text token extends over the blanks that follow the word
+				amount.Commodity.Range = textRange(p.current)
+			}
 			p.advance()
+			amount.Range.End = amount.Commodity.Range.End
+			return amount
 		}
 	}
 
